@@ -196,6 +196,11 @@ def trivialHandler : Handler Unit Unit := ⟨fun _ _ _ => ((), [], .cont)⟩
 def crashingHandler (k : Option Nat) : Handler Nat Unit :=
   ⟨fun n _ _ => (n + 1, [], if k = some n then .crash else .cont)⟩
 
+/-- Same, and additionally leaves the loop after the `a`-th accepted message (how the driver
+    replays a tree in which a Termination message ends the session, see C07). -/
+def scriptedHandler (k a : Option Nat) : Handler Nat Unit :=
+  ⟨fun n _ _ => (n + 1, [], if k = some n then .crash else if a = some n then .abort else .cont)⟩
+
 def countIoErrs {Out : Type} : List (Ev Out) → Nat
   | [] => 0
   | .ioErr _ :: r => countIoErrs r + 1
